@@ -158,7 +158,7 @@ def sibling_case(item):
         started = [f[1] for f in lines if f[0] == 'S']
         obs['sibling_started_before_the_member_asked'] = int('s' in started and 'b' in started)
         if r.status == 'stuck':
-            anoms.append(dict(key='cycle-hang:sibling-waiting-for-a-member', what='L=%d -j%d%s: stuck, witness %s' % (L, j, ' -k' if keep else '', r.witness)))
+            anoms.append(dict(key='cycle-hang:sibling-waiting-for-a-member%s' % (':keep-going' if keep else ''), what='L=%d -j%d%s: stuck, witness %s' % (L, j, ' -k' if keep else '', r.witness)))
         else:
             for a in scen.crash_anoms(r, pj.logs_text(), 'cycle'):
                 if a['cls'] == 'crash':
@@ -193,6 +193,8 @@ def items(tier):
             for j in (2, 3):
                 for keep in ((False,) if quick else (False, True)):
                     out.append(('sibling', L, bs, ss, j, keep))
+    if quick:
+        out.append(('sibling', 3, '0.7', '0.2', 2, True))
     Ls = (1, 2, 3) if quick else (1, 2, 3, 4, 5, 6)
     for L in Ls:
         for P in ((0, 1, 2) if quick else (0, 1, 2, 3)):
@@ -280,9 +282,5 @@ def replay(path):
     else:
         it[4] = tuple(it[4])
         r = cycle_case(tuple(it))
-    print(r.get('verdict'), r.get('violations'))
-    common.cleanup_scratch()
-    if r.get('verdict') == 'violated':
-        print('VIOLATION property=%s replay=%s' % (PROP, path))
-        return 1
-    return 0
+    from ..framework import replay_result
+    return replay_result(PROP, r, path)
